@@ -8,9 +8,10 @@
             table says the lock is free (so no managed thread ever blocks in the kernel);
         (b) the n-th call of a kind (open / lock / unlock / close) raises OSError when the case's
             fault script contains (kind, n).  A faulting close still closes the descriptor.
-            An entry (kind, n, 'ki') with kind unlock / close raises a KeyboardInterrupt subclass
-            instead (a BaseException that is not an Exception): at these two sites the library treats
-            it exactly like the OSError (bare `except:` clauses), so the model needs no second kind.
+            An entry (kind, n, 'ki') raises a KeyboardInterrupt subclass instead (a BaseException
+            that is not an Exception; the model's interrupt flavour): the library swallows an OSError
+            of os.open but not this one, closes the descriptor and goes on polling after an OSError of
+            flock but closes and re-raises after this one, and treats both alike at unlock / close.
     The shim keeps its own table (open descriptions, who holds EX/SH) and compares it with every
     answer of the kernel: a difference is recorded in ``env.kernel_mismatch`` (this is the
     validation of the model's flock assumption).
@@ -56,7 +57,7 @@ class Env:
         self.dir = tmpdir or tempfile.mkdtemp(prefix='flock-')
         self.path = real_os.path.join(self.dir, 'x.lock')
         self.faults = {(f[0], int(f[1])) for f in faults}
-        self.ki = {(f[0], int(f[1])) for f in faults if len(f) > 2 and f[2] == 'ki' and f[0] in ('unlock', 'close')}
+        self.ki = {(f[0], int(f[1])) for f in faults if len(f) > 2 and f[2] == 'ki'}
         self.nsys = dict(open=0, lock=0, unlock=0, close=0)
         self.fired = 0
         self.open_fds = {}            # real fd -> ofd serial
@@ -192,8 +193,9 @@ class _Os:
     def open(self, path, flags, *a, **kw):
         env = self.env
         env.gate('open')
-        if env.fault('open'):
-            raise OSError(errno.EIO, 'injected fault: open')
+        bad = env.fault('open')
+        if bad:
+            raise bad(errno.EIO, 'injected fault: open')
         fd = real_os.open(path, flags, *a, **kw)
         env.open_fds[fd] = env.nopened
         env.nopened += 1
@@ -240,8 +242,9 @@ class _Fcntl:
             env.gate('lock', enabled=lambda: env.table_allows(fd, want) or env.fault_pending('lock'))
         else:
             env.gate('lock')
-        if env.fault('lock'):
-            raise OSError(errno.EIO, 'injected fault: lock')
+        bad = env.fault('lock')
+        if bad:
+            raise bad(errno.EIO, 'injected fault: lock')
         predicted = env.table_allows(fd, want)
         try:
             real_fcntl.flock(fd, (op | real_fcntl.LOCK_NB))
